@@ -1064,6 +1064,376 @@ theorem ops_good (hB : BuiltinsOK B) (chain : List MOp) :
     rw [opsShape] at hshape
     cases hshape
 
+/-! ### f-strings -/
+
+/-- The tree of an expression segment. -/
+def segCode (B : Builtins) : FSegAst → List Instr
+  | .lit s => [.push (.str s), .push (.ident "string".toList), .call 1]
+  | .expr _ e => [.push (.code (compileX B e).cp.toCode), .push (.ident "string".toList), .call 1]
+
+def segVal (B : Builtins) (env : Env) : FSegAst → Val
+  | .lit s => callRaw B (fnKind B env "string".toList) [.str s]
+  | .expr _ e => callStrict B (fnKind B env "string".toList) [evalSpec B e env]
+
+theorem compileSegs_eq (segs : List FSegAst) : compileSegs B segs = (segs.map (segCode B)).flatten := by
+  induction segs with
+  | nil => simp [compileSegs]
+  | cons s ss ih => cases s <;> simp [compileSegs, ih, segCode]
+
+theorem evalSpecSegs_eq (segs : List FSegAst) (env : Env) : evalSpecSegs B segs env = segs.map (segVal B env) := by
+  induction segs with
+  | nil => simp [evalSpecSegs]
+  | cons s ss ih => cases s <;> simp [evalSpecSegs, ih, segVal]
+
+theorem depth_seg_lt {segs : List FSegAst} {src : Str} {e : Ast} (h : FSegAst.expr src e ∈ segs) :
+    depth e + 1 ≤ depthSegs segs := by
+  induction segs with
+  | nil => cases h
+  | cons x xs ih =>
+    rcases List.mem_cons.mp h with rfl | h
+    · rw [depthSegs]; omega
+    · have := ih h
+      cases x <;> rw [depthSegs] <;> omega
+
+theorem good_fstr_prim (hB : BuiltinsOK B) (sp : Span) (segs : List FSegAst)
+    (ih : ∀ src e, FSegAst.expr src e ∈ segs → GoodRun B e) :
+    CGood B (depthPrim (.fstr sp segs)) (compilePrim B (.fstr sp segs)) (evalSpecPrim B (.fstr sp segs)) := by
+  intro b env henv hd hb
+  rw [depthPrim] at hd
+  have hcp : compilePrim B (.fstr sp segs) = .code ((segs.map (segCode B)).flatten ++ [.fmt segs.length]) := by
+    simp [compilePrim, compileSegs_eq]
+  have hes : evalSpecPrim B (.fstr sp segs) env = fmtVal (segs.map (segVal B env)) := by
+    simp [evalSpecPrim, evalSpecSegs_eq]
+  rw [hcp, hes]
+  refine ⟨?_, fun c hc => (by cases hc), data_fmtVal _⟩
+  have hnm := fnKind_not_macro (B := B) (env := env) isMacro_string
+  have hcallee : RunsE B (runAt B b) (runFresh B) env [.push (.ident "string".toList)] (.val (.ident "string".toList)) :=
+    ⟨1, by simp, go_push _ []⟩
+  have hseg : ∀ sg ∈ segs, Runs B (runAt B b) (runFresh B) env (segCode B sg) (segVal B env sg) := by
+    intro sg hsg
+    cases sg with
+    | lit s =>
+      have hstep := callStep_ident (B := B) (rec := runAt B b) (top := runFresh B) henv.toEnvOK "string".toList
+        (argv := [.str s]) (res := .ok [.str s])
+        (by intro a ha; simp only [List.mem_singleton] at ha; subst ha; exact (data_str s).plain)
+        (argsEval_single (data_str s)) (callResult_of_not_macro hnm _ _ _)
+      rw [callRes_ok] at hstep
+      have hd : Data (callRaw B (fnKind B env "string".toList) [.str s]) :=
+        data_callRaw hB (kindOK_fnKind _) (by intro a ha; simp only [List.mem_singleton] at ha; subst ha; rfl)
+      exact runs_call hcallee [.str s] hd.plain hstep
+    | expr src e =>
+      have hge := ih src e hsg
+      have hlt := depth_seg_lt hsg
+      have hblk : ∀ p ∈ [((compileX B e).cp.toCode, evalSpec B e env)], ∀ log,
+          runAt B b env p.1 true log = outOf p.2 log := by
+        intro p hp log
+        simp only [List.mem_singleton] at hp; subst hp
+        exact block_runs hge henv (by omega) hb log
+      have hev := argsEval_blocks (rec := runAt B b) (env := env) _ hblk
+      have hstep := callStep_ident (B := B) (rec := runAt B b) (top := runFresh B) henv.toEnvOK "string".toList
+        (by intro a ha; simp only [List.map_cons, List.map_nil, List.mem_singleton] at ha; subst ha; exact plain_code _)
+        hev (callResult_of_not_macro hnm _ _ _)
+      rw [callRes_argsRes] at hstep
+      have hde : Data (evalSpec B e env) := (hge b env henv (by omega) hb).2
+      have hd : Data (callStrict B (fnKind B env "string".toList) [evalSpec B e env]) :=
+        data_callStrict hB (kindOK_fnKind _) (by intro a ha; simp only [List.mem_singleton] at ha; subst ha; exact hde)
+      exact runs_call hcallee [.code (compileX B e).cp.toCode] hd.plain hstep
+  have := runs_fmt (B := B) (rec := runAt B b) (top := runFresh B) henv.noProgs
+    (segs.map (fun sg => (segCode B sg, segVal B env sg)))
+    (fun p hp => by
+      obtain ⟨sg, hsg, rfl⟩ := List.mem_map.mp hp
+      exact hseg sg hsg)
+  simpa [List.map_map, Function.comp_def, CP.toCode] using this
+
+/-! ### agreeing environments: the constructors -/
+
+theorem fnKind_nonmacro_agree {e1 e2 : Env} (h1 : e1.hasBinds = true) (h2 : e2.hasBinds = true) {n : Str}
+    (hm1 : e1.isMacro n = false) (hm2 : e2.isMacro n = false) : fnKind B e1 n = fnKind B e2 n := by
+  unfold fnKind
+  simp [hm1, hm2, Env.getType, h1, h2]
+
+theorem irr_notRun (sp : Span) (ops : List Span) (m : Ast) (h : Irr B (identsOf m) (evalSpec B m)) :
+    Irr B (identsOf (.notRun sp ops m)) (evalSpec B (.notRun sp ops m)) := by
+  intro e1 e2 ha
+  rw [identsOf] at ha
+  simp only [evalSpec]
+  rw [h e1 e2 ha]
+
+theorem irr_negRun (sp : Span) (ops : List Span) (m : Ast) (h : Irr B (identsOf m) (evalSpec B m)) :
+    Irr B (identsOf (.negRun sp ops m)) (evalSpec B (.negRun sp ops m)) := by
+  intro e1 e2 ha
+  rw [identsOf] at ha
+  simp only [evalSpec]
+  rw [h e1 e2 ha]
+
+theorem irr_bin (sp : Span) (op : BinOp) (l r : Ast) (hl : Irr B (identsOf l) (evalSpec B l))
+    (hr : Irr B (identsOf r) (evalSpec B r)) :
+    Irr B (identsOf (.bin sp op l r)) (evalSpec B (.bin sp op l r)) := by
+  intro e1 e2 ha
+  rw [identsOf] at ha
+  by_cases hlazy : op = .or ∨ op = .and
+  · rw [es_lazy sp op l r e1 hlazy, es_lazy sp op l r e2 hlazy, hl e1 e2 ha.left, hr e1 e2 ha.right]
+  · have h1 : op ≠ .or := fun h => hlazy (Or.inl h)
+    have h2 : op ≠ .and := fun h => hlazy (Or.inr h)
+    rw [es_bin sp op l r e1 h1 h2, es_bin sp op l r e2 h1 h2, hl e1 e2 ha.left, hr e1 e2 ha.right]
+
+theorem irr_tern (sp : Span) (c t f : Ast) (hc : Irr B (identsOf c) (evalSpec B c))
+    (ht : Irr B (identsOf t) (evalSpec B t)) (hf : Irr B (identsOf f) (evalSpec B f)) :
+    Irr B (identsOf (.tern sp c t f)) (evalSpec B (.tern sp c t f)) := by
+  intro e1 e2 ha
+  rw [identsOf] at ha
+  rw [es_tern, es_tern, hc e1 e2 ha.left.left, ht e1 e2 ha.left.right, hf e1 e2 ha.right]
+
+theorem identsOfCases_mem {cases : List MCase} {c : MCase} (h : c ∈ cases) :
+    (∀ n ∈ identsOfPat (casePat c), n ∈ identsOfCases cases) ∧
+    (∀ n ∈ identsOf (caseBody c), n ∈ identsOfCases cases) := by
+  induction cases with
+  | nil => cases h
+  | cons c' cs ih =>
+    cases c' with
+    | mk sp p b =>
+      rw [identsOfCases]
+      rcases List.mem_cons.mp h with rfl | h
+      · simp only [casePat, caseBody]
+        exact ⟨fun n hn => List.mem_append_left _ (List.mem_append_left _ hn),
+          fun n hn => List.mem_append_left _ (List.mem_append_right _ hn)⟩
+      · exact ⟨fun n hn => List.mem_append_right _ ((ih h).1 n hn), fun n hn => List.mem_append_right _ ((ih h).2 n hn)⟩
+
+theorem irr_match (sp : Span) (s : Ast) (cases : List MCase) (hs : Irr B (identsOf s) (evalSpec B s))
+    (harm : ∀ sp' p b, MCase.mk sp' p b ∈ cases → Irr B (identsOf b) (evalSpec B b))
+    (hcmp : ∀ sp' sp1 sp2 op e b, MCase.mk sp' (.cmp sp1 sp2 op e) b ∈ cases → Irr B (identsOf e) (evalSpec B e))
+    (htyp : ∀ sp' sp1 t name b, MCase.mk sp' (.type sp1 t name) b ∈ cases → (typeByName name).isSome) :
+    Irr B (identsOf (.match_ sp s cases)) (evalSpec B (.match_ sp s cases)) := by
+  intro e1 e2 ha
+  rw [identsOf] at ha
+  have hes : ∀ env, evalSpec B (.match_ sp s cases) env = evalSpecCases B cases (evalSpec B s env) env := by
+    intro env; rw [evalSpec]
+  rw [hes, hes, hs e1 e2 ha.left, evalSpecCases_eq, evalSpecCases_eq]
+  congr 1
+  apply List.map_congr_left
+  intro c hc
+  have hmem := identsOfCases_mem hc
+  cases c with
+  | mk sp' p b =>
+    simp only [casePat, caseBody] at hmem ⊢
+    have hb := harm sp' p b hc e1 e2 (ha.right.mono hmem.2)
+    rw [hb]
+    congr 1
+    cases p with
+    | any _ => simp [evalSpecPat]
+    | cmp sp1 sp2 op e =>
+      simp only [evalSpecPat]
+      rw [hcmp sp' sp1 sp2 op e b hc e1 e2 (ha.right.mono (by rw [identsOfPat] at hmem; exact hmem.1))]
+    | type sp1 t name =>
+      rw [evalSpecPat_type, evalSpecPat_type,
+        fnKind_nonmacro_agree ha.b1 ha.b2 isMacro_type isMacro_type]
+      have := htyp sp' sp1 t name b hc
+      cases htn : typeByName name with
+      | none => rw [htn] at this; cases this
+      | some ty => simp [resolveIdent, Env.getType, ha.b1, ha.b2, htn]
+
+theorem identsOfList_mem {es : List Ast} {e : Ast} (h : e ∈ es) : ∀ n ∈ identsOf e, n ∈ identsOfList es := by
+  induction es with
+  | nil => cases h
+  | cons x xs ih =>
+    rw [identsOfList]
+    rcases List.mem_cons.mp h with rfl | h
+    · exact fun n hn => List.mem_append_left _ hn
+    · exact fun n hn => List.mem_append_right _ (ih h n hn)
+
+theorem identsOfInits_mem {inits : List MInit} {i : MInit} (h : i ∈ inits) :
+    (∀ n ∈ identsOf (initKey i), n ∈ identsOfInits inits) ∧ (∀ n ∈ identsOf (initVal i), n ∈ identsOfInits inits) := by
+  induction inits with
+  | nil => cases h
+  | cons x xs ih =>
+    cases x with
+    | mk sp k v =>
+      rw [identsOfInits]
+      rcases List.mem_cons.mp h with rfl | h
+      · simp only [initKey, initVal]
+        exact ⟨fun n hn => List.mem_append_left _ (List.mem_append_left _ hn),
+          fun n hn => List.mem_append_left _ (List.mem_append_right _ hn)⟩
+      · exact ⟨fun n hn => List.mem_append_right _ ((ih h).1 n hn), fun n hn => List.mem_append_right _ ((ih h).2 n hn)⟩
+
+theorem identsOfSegs_mem {segs : List FSegAst} {src : Str} {e : Ast} (h : FSegAst.expr src e ∈ segs) :
+    ∀ n ∈ identsOf e, n ∈ identsOfSegs segs := by
+  induction segs with
+  | nil => cases h
+  | cons x xs ih =>
+    rcases List.mem_cons.mp h with rfl | h'
+    · rw [identsOfSegs]; exact fun n hn => List.mem_append_left _ hn
+    · cases x <;> rw [identsOfSegs]
+      · exact ih h'
+      · exact fun n hn => List.mem_append_right _ (ih h' n hn)
+
+/-- Primaries do not distinguish agreeing environments. -/
+theorem irr_prim (p : Prim)
+    (hpar : ∀ sp' e, p = .parens sp' e → Irr B (identsOf e) (evalSpec B e))
+    (hlist : ∀ sp' es, p = .list sp' es → ∀ e ∈ es, Irr B (identsOf e) (evalSpec B e))
+    (hmk : ∀ sp' inits, p = .map sp' inits → ∀ i ∈ inits, Irr B (identsOf (initKey i)) (evalSpec B (initKey i)))
+    (hmv : ∀ sp' inits, p = .map sp' inits → ∀ i ∈ inits, Irr B (identsOf (initVal i)) (evalSpec B (initVal i)))
+    (hseg : ∀ sp' segs, p = .fstr sp' segs → ∀ src e, FSegAst.expr src e ∈ segs → Irr B (identsOf e) (evalSpec B e)) :
+    Irr B (identsOfPrim p) (evalSpecPrim B p) := by
+  intro e1 e2 ha
+  cases p with
+  | ident sp n =>
+    simp only [evalSpecPrim]
+    exact ha.res n (by rw [identsOfPrim]; simp)
+  | parens sp e =>
+    simp only [evalSpecPrim]
+    rw [identsOfPrim] at ha
+    exact hpar sp e rfl e1 e2 ha
+  | list sp es =>
+    simp only [evalSpecPrim]
+    rw [identsOfPrim] at ha
+    rw [evalSpecList_irr (hlist sp es rfl) (fun n hn => hn) ha]
+  | map sp inits =>
+    simp only [evalSpecPrim]
+    rw [identsOfPrim] at ha
+    rw [evalSpecInits_eq, evalSpecInits_eq]
+    congr 1
+    apply List.map_congr_left
+    intro i hi
+    have hmem := identsOfInits_mem hi
+    rw [hmk sp inits rfl i hi e1 e2 (ha.mono hmem.1), hmv sp inits rfl i hi e1 e2 (ha.mono hmem.2)]
+  | fstr sp segs =>
+    simp only [evalSpecPrim]
+    rw [identsOfPrim] at ha
+    rw [evalSpecSegs_eq, evalSpecSegs_eq]
+    congr 1
+    apply List.map_congr_left
+    intro sg hsg
+    have hk := fnKind_nonmacro_agree (B := B) ha.b1 ha.b2 (n := "string".toList) isMacro_string isMacro_string
+    cases sg with
+    | lit s => simp only [segVal, hk]
+    | expr src e =>
+      simp only [segVal, hk]
+      rw [hseg sp segs rfl src e hsg e1 e2 (ha.mono (identsOfSegs_mem hsg))]
+  | null _ => rfl
+  | int _ _ => rfl
+  | uint _ _ => rfl
+  | float _ _ => rfl
+  | str _ _ => rfl
+  | bytes _ _ => rfl
+  | bool _ _ => rfl
+
+/-! ### member expressions -/
+
+theorem good_prim (hB : BuiltinsOK B) (p : Prim)
+    (hpar : ∀ sp' e, p = .parens sp' e → GoodRun B e)
+    (hlist : ∀ sp' es, p = .list sp' es → ∀ e ∈ es, GoodRun B e)
+    (hmk : ∀ sp' inits, p = .map sp' inits → ∀ i ∈ inits, GoodRun B (initKey i))
+    (hmv : ∀ sp' inits, p = .map sp' inits → ∀ i ∈ inits, GoodRun B (initVal i))
+    (hseg : ∀ sp' segs, p = .fstr sp' segs → ∀ src e, FSegAst.expr src e ∈ segs → GoodRun B e) :
+    CGood B (depthPrim p) (compilePrim B p) (evalSpecPrim B p) := by
+  cases p with
+  | ident sp n =>
+    intro b env henv _ _
+    exact ⟨runs_ident n, fun c hc => (by simp [compilePrim] at hc), data_resolveIdent henv.toEnvOK n⟩
+  | parens sp e =>
+    have := (hpar sp e rfl).cgood
+    intro b env henv hd hb
+    rw [depthPrim] at hd
+    have h := this b env henv hd hb
+    simpa [compilePrim, evalSpecPrim] using h
+  | list sp es => exact good_list_prim sp es (hlist sp es rfl)
+  | map sp inits => exact good_map_prim sp inits (hmk sp inits rfl) (hmv sp inits rfl)
+  | fstr sp segs => exact good_fstr_prim hB sp segs (hseg sp segs rfl)
+  | null _ => exact cgood_const (v := .null) rfl _
+  | int _ i => exact cgood_const (v := .int i) rfl _
+  | uint _ n => exact cgood_const (v := .uint n) rfl _
+  | float _ x => exact cgood_const (v := .float x) rfl _
+  | str _ x => exact cgood_const (v := .str x) rfl _
+  | bytes _ x => exact cgood_const (v := .bytes x) rfl _
+  | bool _ x => exact cgood_const (v := .bool x) rfl _
+
+theorem cx_member (sp : Span) (p : Prim) (chain : List MOp) :
+    compileX B (.member sp p chain) = { cp := compileOps B (identsOfPrim p) (compilePrim B p) chain } := by
+  rw [compileX]
+
+theorem good_member (hB : BuiltinsOK B) (sp : Span) (p : Prim) (chain : List MOp)
+    (hpar : ∀ sp' e, p = .parens sp' e → Good B e)
+    (hlist : ∀ sp' es, p = .list sp' es → ∀ e ∈ es, Good B e)
+    (hmk : ∀ sp' inits, p = .map sp' inits → ∀ sp'' k v, MInit.mk sp'' k v ∈ inits → Good B k)
+    (hmv : ∀ sp' inits, p = .map sp' inits → ∀ sp'' k v, MInit.mk sp'' k v ∈ inits → Good B v)
+    (hseg : ∀ sp' segs, p = .fstr sp' segs → ∀ src e, FSegAst.expr src e ∈ segs → Good B e)
+    (hargs : ∀ sp' args, MOp.call sp' args ∈ chain → ∀ a ∈ args, Good B a)
+    (hidx : ∀ sp' e, MOp.index sp' e ∈ chain → Good B e)
+    (hshape : memberShape B p chain = true) : Good B (.member sp p chain) := by
+  have hmk' : ∀ sp' inits, p = .map sp' inits → ∀ i ∈ inits, Good B (initKey i) := by
+    intro sp' inits hp i hi; cases i with | mk s k v => exact hmk sp' inits hp s k v hi
+  have hmv' : ∀ sp' inits, p = .map sp' inits → ∀ i ∈ inits, Good B (initVal i) := by
+    intro sp' inits hp i hi; cases i with | mk s k v => exact hmv sp' inits hp s k v hi
+  suffices h : CGood B (max (depthPrim p) (depthOps chain)) (compileOps B (identsOfPrim p) (compilePrim B p) chain)
+      (evalSpec B (.member sp p chain)) ∧
+      Irr B (identsOfPrim p ++ identsOfOps chain) (evalSpec B (.member sp p chain)) by
+    refine ⟨good_of_cgood ?_ (by rw [cx_member]), ?_⟩
+    · rw [cx_member, depth]; exact h.1
+    · rw [identsOf]; exact h.2
+  by_cases hcall : ∃ sp' f sp'' args rest, p = .ident sp' f ∧ chain = .call sp'' args :: rest
+  · obtain ⟨sp', f, sp'', args, rest, rfl, rfl⟩ := hcall
+    have hsh : macroShape B f args = true ∧ opsShape B rest = true := by
+      simpa [memberShape] using hshape
+    have hargs' : ∀ a ∈ args, Good B a := hargs sp'' args (by simp)
+    have hU := call_runs hB (calleeGood_ident (B := B) f) args (fun a ha => (hargs' a ha).1)
+      (macro_ok hB f args (fun a ha => (hargs' a ha).1) hsh.1)
+    have hirr' : Irr B ([f] ++ identsOfList args) (callVal B (fun env => fnKind B env f) f args) := by
+      apply callVal_irr (ids := [f])
+      · intro e1 e2 h; exact h.kind f (by simp)
+      · exact fun a ha => (hargs' a ha).2
+      · exact fun n hn => List.mem_append_right _ hn
+      · exact fun n hn => List.mem_append_left _ hn
+    have hcg := cgood_checkForConst hU hirr'
+    have := ops_good hB rest hsh.2 (fun sp3 a' h => hargs sp3 a' (by simp [h])) (fun sp3 e h => hidx sp3 e (by simp [h]))
+      ([f] ++ identsOfList args) _ _ _ hcg hirr'
+    have hes : evalSpec B (.member sp (.ident sp' f) (.call sp'' args :: rest)) =
+        fun env => evalSpecOps B (callVal B (fun env => fnKind B env f) f args env) rest env := by
+      funext env; exact es_call ..
+    have hco : compileOps B (identsOfPrim (.ident sp' f)) (compilePrim B (.ident sp' f)) (.call sp'' args :: rest) =
+        compileOps B ([f] ++ identsOfList args) (checkForConst B ([f] ++ identsOfList args)
+          (compileArgs B args ++ [.push (.ident f)] ++ [.call args.length])) rest := by
+      rw [co_call]; rfl
+    rw [hes, hco, identsOfOps_call, ← List.append_assoc]
+    refine ⟨this.1.mono ?_, ?_⟩
+    · have hd0 : depthPrim (.ident sp' f) = 0 := rfl
+      rw [depthOps, hd0]; omega
+    · have h2 := this.2
+      rw [identsOfPrim]
+      exact h2
+  · have hne : ∀ sp' f sp'' args rest, p = .ident sp' f → chain = .call sp'' args :: rest → False :=
+      fun sp' f sp'' args rest h1 h2 => hcall ⟨sp', f, sp'', args, rest, h1, h2⟩
+    have hsh : opsShape B chain = true := by
+      unfold memberShape at hshape
+      split at hshape
+      · exact (hne _ _ _ _ _ rfl rfl).elim
+      · exact hshape
+    have hp := good_prim hB p (fun s e h => (hpar s e h).1) (fun s es h e he => (hlist s es h e he).1)
+      (fun s is h i hi => (hmk' s is h i hi).1) (fun s is h i hi => (hmv' s is h i hi).1)
+      (fun s sg h src e he => (hseg s sg h src e he).1)
+    have hpi := irr_prim (B := B) p (fun s e h => (hpar s e h).2) (fun s es h e he => (hlist s es h e he).2)
+      (fun s is h i hi => (hmk' s is h i hi).2) (fun s is h i hi => (hmv' s is h i hi).2)
+      (fun s sg h src e he => (hseg s sg h src e he).2)
+    have := ops_good hB chain hsh hargs hidx (identsOfPrim p) _ _ _ hp hpi
+    have hes : evalSpec B (.member sp p chain) = fun env => evalSpecOps B (evalSpecPrim B p env) chain env := by
+      funext env; exact es_member sp p chain env hne
+    rw [hes]
+    exact this
+
+/-! ### the induction -/
+
+theorem good_all (hB : BuiltinsOK B) {e : Ast} (h : Frag2 B e) : Good B e := by
+  induction h with
+  | notRun sp ops x _ ih => exact ⟨good_notRun sp ops x ih.1, irr_notRun sp ops x ih.2⟩
+  | negRun sp ops x _ ih => exact ⟨good_negRun sp ops x ih.1, irr_negRun sp ops x ih.2⟩
+  | bin sp op l r _ _ ihl ihr => exact ⟨good_bin sp op l r ihl.1 ihr.1, irr_bin sp op l r ihl.2 ihr.2⟩
+  | tern sp c t f _ _ _ ihc iht ihf =>
+    exact ⟨good_tern sp c t f ihc.1 iht.1 ihf.1, irr_tern sp c t f ihc.2 iht.2 ihf.2⟩
+  | match_ sp s cases _ _ _ htyp ihs iharm ihcmp =>
+    exact ⟨good_match hB sp s cases ihs.1 (fun a b c d => (iharm a b c d).1) (fun a b c d e f g => (ihcmp a b c d e f g).1),
+      irr_match sp s cases ihs.2 (fun a b c d => (iharm a b c d).2) (fun a b c d e f g => (ihcmp a b c d e f g).2) htyp⟩
+  | member sp p chain _ _ _ _ _ _ _ hshape ihpar ihlist ihmk ihmv ihseg ihargs ihidx =>
+    exact good_member hB sp p chain ihpar ihlist ihmk ihmv ihseg ihargs ihidx hshape
+
 end
 
 end C05Compile2
